@@ -234,6 +234,18 @@ def rule_pickle_state(ctx: Ctx) -> None:
     dec = {t.attr: norm(s.value) for s in walk_no_nested(ss.node) if isinstance(s, ast.Assign) for t in s.targets if isinstance(t, ast.Attribute)}
     asym = [k for k in set(enc) | set(dec) if ("dumps" in enc.get(k, "")) != ("loads" in dec.get(k, "")) and (k in enc or "loads" in dec.get(k, ""))]
     ctx.tri("5-pickle-state", gs, gs.node, bool(enc) and not asym, bool(asym), "what is dumps()-encoded on the way out is loads()-decoded on the way in", f"{sorted(asym)}: encoded with dumps but not decoded with loads (or the reverse)", "codec not recognised", key="PipeFunc.codec")
+    # `_pipelines` (the back-references through which a function invalidates the caches of the pipelines that contain it) is not
+    # pickled and starts EMPTY in the restored function: the restored PIPELINE has to register itself again
+    resets = [s_ for s_ in walk_no_nested(ss.node) if isinstance(s_, ast.Assign) and any(isinstance(t, ast.Attribute) and t.attr == "_pipelines" and norm(t.value) == "self" for t in s_.targets)]
+    if "_pipelines" in excluded or resets:
+        pl_cls = P.cls(f"{BASE}.Pipeline")
+        hooks = [m for nm, m in dict.items(pl_cls.methods) if nm in ("__setstate__", "__reduce__", "__reduce_ex__")]
+        relink = [c for m in hooks for f_ in Scope(ctx, m).funcs for c in ast.walk(f_.node) if isinstance(c, ast.Call) and isinstance(c.func, ast.Attribute) and c.func.attr in ("add", "update") and norm(c.func.value).endswith("._pipelines")]
+        ctx.tri("5-pickle-state", hooks[0] if hooks else pl_cls.qualname, (relink[0] if relink else hooks[0].node) if hooks else pl_cls.loc, bool(relink), not hooks,
+                "the restored Pipeline registers itself with its functions again (`f._pipelines.add(self)`)",
+                "PipeFunc restores with an EMPTY `_pipelines` and Pipeline has no __setstate__ that registers itself again: after a pickle round-trip (or deepcopy) `pipeline[name].update_defaults / update_renames / update_bound` "
+                "change the function but never invalidate the pipeline's cached defaults, root arguments and graph - the round-tripped pipeline answers from the state before the update",
+                "Pipeline has a pickling hook, but no `._pipelines.add(...)` was found in it", key="Pipeline.relink")
     paf = P.cls(f"{BASE}._PipelineAsFunc")
     g2, s2 = paf.methods["__getstate__"], paf.methods["__setstate__"]
     ctx.tri("5-pickle-state", s2, s2.node, "__slots__" in norm(g2.node) and "__slots__" in norm(s2.node), False, "_PipelineAsFunc saves and restores every slot", "", "_PipelineAsFunc state handling not recognised", key="PipelineAsFunc")
